@@ -718,6 +718,8 @@ def rule_field_guard(chk):
 
 def run(chk):
     rule_copy(chk)
+    from . import c07
+    c07.rule_contain(chk, only=("eliot.Logger.write", "eliot.write_traceback", "eliot.Action.finish"))  # the failure report itself may not fail: a second failure inside it doubles / replaces the reports
     rule_once(chk)
     rule_fail(chk)
     rule_attach(chk)
